@@ -55,6 +55,33 @@ def donor_slip_variants(asr, n_other=0, max_records=13):
 
 F_STOPLOSS = 'C01-stoploss'
 
+def classify_missing_linear_stoploss(evs):
+    """C01-stoploss judged in the transcripts that OBLIGE the peptide only.  cvcheck.classify judges the derivations of a
+    missing peptide in every transcript that carries records; a transcript in which the peptide is a product of the
+    unmodified sequence (not novel there, hence not obliged by it: e.g. a non-coding isoform that reads the same frame
+    from an ATG) then contributes derivations the signature cannot match (no annotated stop codon) and the verdict is
+    lost.  Here the existing signature cvsig.explained_by_stoploss is applied per obliging transcript (linear must set
+    of that transcript, recorded by cvcheck2 in raw['_must_by_tx'])."""
+    from harness.lib import cvsig as SG, cvcheck as CK
+    for ev in evs:
+        if ev.exc or not any(t is None for t in ev.missing.values()) or CK.run_flags(ev.run):
+            continue
+        by = ev.raw.get('_must_lin_by_tx') or {}
+        todo = [p for p, t in ev.missing.items() if t is None]
+        for p in todo:
+            txs = [t for t, ms in by.items() if p in ms and t in ev.xs]
+            if not txs:
+                continue
+            ok = True
+            for t in txs:
+                ce = CK._cds_end(ev.case, t)
+                ws = SG.decode_wits([w for q, w in O.call('cv_must_witnesses_of', [ev.xs[t], [p]])], ev.recs[t])
+                if ce is None or not SG.explained_by_stoploss(ev.xs[t], ev.recs[t], ce, ws):
+                    ok = False
+                    break
+            if ok:
+                ev.missing[p] = F_STOPLOSS
+
 def classify_missing(evs):
     """missing obliged peptides of AS cases: C01-stoploss on the AS backbone (the event removes the stop codon or
     shifts the frame, translation reads into the 3'UTR; products wholly behind the annotated stop codon that carry
@@ -215,7 +242,9 @@ def _apply_coarse(ev, coarse):
             ev.missing[p] = F_AS_DONOR
             ev.raw['as_donor_coarse_missing'] = ev.raw.get('as_donor_coarse_missing', 0) + 1
 
-FLICKER_SEEDS = ('0', '0', '0', '1', '2', '3')      # the identical case again: same PYTHONHASHSEED and varied
+FLICKER_SEEDS = ('0', '1', '2')      # the identical case again, TWICE per worker process (the output also depends on the
+                                     # state of the process: the second execution in one process can differ): 6 executions,
+                                     # same PYTHONHASHSEED and varied
 
 def _donor_txs(c):
     """transcripts of the case that carry an <INS>/<SUB> record with >= 1 small record inside its donor segment"""
@@ -225,53 +254,82 @@ def _donor_txs(c):
             out.append(r['tx'])
     return out
 
+F_CIRC_FLICKER = 'C01-circ-indel-flicker'
+
+def _circ_indel_keys(c):
+    """ids of the circRNA records whose circle holds >= 1 length-changing small record of their transcript"""
+    out = []
+    for r in c.get('circ_records', []):
+        ins = [row for row in c.get('gvf', []) if row[5] == r['tx'] and len(row[3]) != len(row[4])
+               and any(a <= row[1] - 1 and row[1] - 1 + len(row[3]) <= b for a, b in r['frags'])]
+        if ins:
+            out.append(r['row']['id'])
+    return out
+
 def _tx_set(fasta, txs):
     """sequences reported for the given transcripts (a header entry starts with the transcript id)"""
     return frozenset(sq for h, sq in fasta if any(e.split('|')[0] in txs for e in h.split(' ')))
 
-def classify_flicker(evs, seeds=FLICKER_SEEDS):
+FLICKER_SEEDS_2 = ('0', '0', '1', '2', '3', '4')   # second stage, for disagreements that are STILL unexplained
+
+def classify_flicker(evs, seeds=FLICKER_SEEDS, stage=1):
     """flicker form of C02-as-donor-record, applied BEFORE the other forms and only to cases that HAVE an AS record with
     >= 1 small record inside its donor segment: when such a case shows an unexplained miss (C01) or an unexplained
-    unrealizable sequence (C02), the identical case is executed len(seeds) more times; if the sets of sequences reported
+    unrealizable sequence (C02), the identical case is executed 2 * len(seeds) more times (twice per worker process, one process per hash seed); if the sets of sequences reported
     for the affected transcript differ between those executions (the original one included) -- i.e. the disagreement does
     not reproduce in every run, or the runs disagree among themselves -- the engine's output is not a function of the
     input (hash seed / object addresses) and every still-unexplained disagreement of that transcript is tagged.
-    A disagreement that reproduces identically in all executions goes on to the other forms or is a VIOLATION."""
+    A disagreement that reproduces identically in all executions goes on to the other forms; if it is STILL unexplained
+    after them, a second stage executes the case 12 more times (6 processes x 2) (chance agreement of 7 executions of a case that flickers
+    in one run out of three is ~9 %: seen at thorough volume) before it becomes a VIOLATION."""
     from harness.lib import impl as I
     import json as _json
     sel = []
     for ev in evs:
         c = ev.case
-        if ev.exc or not c.get('as_records'):
+        if ev.exc or not (c.get('as_records') or c.get('circ_records')):
             continue
         if not (any(t is None for t in ev.missing.values()) or any(t is None for t in ev.extra.values())):
             continue
         txs = _donor_txs(c)
         if txs:
-            sel.append((ev, txs))
+            sel.append((ev, txs, F_AS_DONOR, txs))
+            continue
+        # second class (C01-circ-indel-flicker): a circRNA whose circle holds >= 1 insertion / deletion record; misses only
+        keys = _circ_indel_keys(c)
+        if keys and any(t is None for t in ev.missing.values()):
+            sel.append((ev, keys, F_CIRC_FLICKER, sorted(set(r['tx'] for r in c['circ_records'] if r['row']['id'] in keys))))
     if not sel:
         return
-    cases = [_json.loads(_json.dumps(dict({k: v for k, v in ev.case.items() if not k.startswith('_')}, runs=[ev.run]))) for ev, _ in sel]
-    sets = [[_tx_set(ev.fasta, txs)] for ev, txs in sel]
+    # every case twice in a row, chunked so that the two executions run in ONE worker process
+    cases = []
+    for ev, _k, _f, _t in sel:
+        cc = _json.loads(_json.dumps(dict({k: v for k, v in ev.case.items() if not k.startswith('_')}, runs=[ev.run])))
+        cases += [cc, _json.loads(_json.dumps(cc))]
+    sets = [list(ev.raw.get('_flick_sets') or [_tx_set(ev.fasta, keys)]) for ev, keys, _f, _t in sel]
     for i, hs in enumerate(seeds):
-        res = I.run_cases('callvariant2', cases, jobs=16, tag='flick%d' % i, hashseed=hs, timeout=3600)
-        for k, r in enumerate(res):
+        res = I.run_cases('callvariant2', cases, jobs=max(1, min(16, len(sel))), tag='flick%d_%d' % (stage, i), hashseed=hs, timeout=3600)
+        for k2, r in enumerate(res):
+            k = k2 // 2
             r0 = r['runs'][0] if 'runs' in r else r
             sets[k].append(_tx_set(r0.get('fasta', []), sel[k][1]) if 'fasta' in r0 else frozenset(['<' + r0.get('__exc__', 'exc') + '>']))
-    for (ev, txs), ss in zip(sel, sets):
+    for (ev, keys, tag, txs), ss in zip(sel, sets):
         ev.raw['as_donor_reruns'] = len(ss) - 1
+        ev.raw['_flick_sets'] = ss
         if len(set(ss)) <= 1:
             continue                                  # reproduces identically: strict path
         ev.raw['as_donor_flicker_sets'] = len(set(ss))
         mine = set().union(*[ev.raw.get('_must_by_tx', {}).get(t, set()) for t in txs]) if ev.raw.get('_must_by_tx') else set(ev.missing)
         for p, t in list(ev.missing.items()):
             if t is None and p in mine:              # obliged by the affected transcript
-                ev.missing[p] = F_AS_DONOR
-        for p, t in list(ev.extra.items()):
-            if t is None and any(e.split('|')[0] in txs for e in ev.got.get(p, [])):
-                ev.extra[p] = F_AS_DONOR
+                ev.missing[p] = tag
+        if tag == F_AS_DONOR:
+            for p, t in list(ev.extra.items()):
+                if t is None and any(e.split('|')[0] in keys for e in ev.got.get(p, [])):
+                    ev.extra[p] = tag
 
 def classify(evs):
+    classify_missing_linear_stoploss(evs)
     classify_missing(evs)
     classify_flicker(evs)
     for ev in evs:
@@ -352,3 +410,4 @@ def classify(evs):
                 ev.extra[p] = F_AS_DONOR
                 ev.raw['as_donor_coarse'] = ev.raw.get('as_donor_coarse', 0) + 1
     classify_missing_donor(evs)
+    classify_flicker(evs, seeds=FLICKER_SEEDS_2, stage=2)
